@@ -13,7 +13,7 @@ OUTSIDE = ["which byte strings decode under which real codec, bytes on disk, new
 
 
 def obligations(tier):
-    T = 120 if tier == "quick" else 600
+    T = 120 if tier == "quick" else 900
     obs = [dict(name="selftest_strip", func="selftest_strip", file="xhlib.py", timeout=60, bounds="engine self-test")]
     for ex in range(5):
         obs.append(dict(name=f"detect[explicit={ex}]", func="detect", pre=f"explicit == {ex}" + ("" if ex == 0 else " and order == 0"), timeout=T,
@@ -36,5 +36,5 @@ def replay(data):
 
 
 def main(tier):
-    return xhprop.main(PROP, tier, FILE, obligations(tier), FUNCTIONS, ASSUMPTIONS, OUTSIDE, signature,
+    return xhprop.main(PROP, tier, FILE, obligations(tier), FUNCTIONS, ASSUMPTIONS, OUTSIDE, signature, extra_chars=(1 if tier == "thorough" else 0),
                        bounds="all decode-outcome vectors over the tried encodings, 6 orders + explicit encoding, {.sm,.ssc} x output x backup x name clashes x 5 edit operations with symbolic values <=2")
